@@ -339,7 +339,11 @@ def decide_from_corpus(prop, res, builtins, seed, only_programs=None):
         if not wanted(v['program']):
             continue
         breaks.append({'kind': 'trace', 'program': v['program'], 'input': v['input'], 'script': v['script'], 'detail': v['msg'], 'impl': v['impl'], 'model': v['other']})
-    # (c) stage checks attributed to this property
+    # (c) programs of this property's slice that could not be built: nothing is shown for them
+    for nm, pr in progs.items():
+        if wanted(nm) and pr['build'] != 'ok':
+            breaks.append({'kind': 'build', 'program': nm, 'check': 'expansion', 'detail': 'the definition does not expand/compile (%s): %s' % (pr['build'], pr['detail'][:300]), 'words': []})
+    # (d) stage checks attributed to this property
     for nm, pr in progs.items():
         if not wanted(nm):
             continue
@@ -416,7 +420,7 @@ def nontrivial_programs(res, pred):
 
 PROGRAM_FILTER = {
     'C03': lambda nm, pr: True,
-    'C04': lambda nm, pr: pr['features'].get('has_ctx', False),
+    'C04': lambda nm, pr: pr.get('features', {}).get('has_ctx', False),
 }
 
 
@@ -464,7 +468,7 @@ def main():
         if not violations and breaks:
             f, u = resolve_breaks(prop, res, breaks, builtins, seed)
             violations += f
-            unresolved += u
+            unresolved += u[:4]
         c = res['counters']
         coverage.update({'programs': c['built'], 'evaluations': c['cases'], 'distinct_nontrivial': c['distinct_traces'],
                          'traces_validated_against_impl': c['impl_model_equal'], 'traces_equal_reference_lexer': c['impl_ref_equal'],
